@@ -78,6 +78,8 @@ class Screen(_raw_display_base.Screen):
         self._prev_sigcont_handler = None
         self._prev_sigtstp_handler = None
         self._prev_sigwinch_handler = None
+        # SIGCONT is only taken over while suspended (see `_sigtstp_handler`)
+        self._sigcont_replaced = False
 
     def __repr__(self) -> str:
         return (
@@ -100,6 +102,7 @@ class Screen(_raw_display_base.Screen):
     def _sigtstp_handler(self, signum: int, frame: FrameType | None = None) -> None:
         self.stop()  # Restores the previous signal handlers
         self._prev_sigcont_handler = self.signal_handler_setter(signal.SIGCONT, self._sigcont_handler)
+        self._sigcont_replaced = True
         # Handled by the previous handler.
         # If non-default, it may set its own SIGCONT handler which should hopefully call our own.
         os.kill(os.getpid(), signal.SIGTSTP)
@@ -138,7 +141,9 @@ class Screen(_raw_display_base.Screen):
         applications.
         """
         self.signal_handler_setter(signal.SIGTSTP, self._prev_sigtstp_handler or signal.SIG_DFL)
-        self.signal_handler_setter(signal.SIGCONT, self._prev_sigcont_handler or signal.SIG_DFL)
+        if self._sigcont_replaced:
+            self.signal_handler_setter(signal.SIGCONT, self._prev_sigcont_handler or signal.SIG_DFL)
+            self._sigcont_replaced = False
         self.signal_handler_setter(signal.SIGWINCH, self._prev_sigwinch_handler or signal.SIG_DFL)
 
     def _mouse_tracking(self, enable: bool) -> None:
